@@ -29,7 +29,7 @@ EARLY = {'@': 'object()', 'list[@]': '[object()]', 'dict[str, @]': "{'a': object
          'tuple[@, ...]': '(object(),)', 'dict[@, int]': '{object(): 1}', 'list[@] | None': '[object()]',
          '@[int]': 'object()', 'list[@[int]]': '[object()]', '@[int] | None': 'object()'}
 # objects: source over the names N (class), inst (an instance)
-OBJS = ['inst', '1', "'s'", '[inst]', '[1]', "{'a': inst}", "{'a': 1}", 'None', '(inst, 1)', '(1, inst)', '[[inst]]', '[[1]]', 'N', 'int', '(inst,)', '{inst: 1}', '[]']
+OBJS = ['inst', 'subinst', '[subinst]', '1', "'s'", '[inst]', '[1]', "{'a': inst}", "{'a': 1}", 'None', '(inst, 1)', '(1, inst)', '[[inst]]', '[[1]]', 'N', 'int', '(inst,)', '{inst: 1}', '[]']
 
 PRE = 'from typing import *\nfrom collections.abc import Sequence\nfrom beartype import beartype\nT_ = TypeVar("T_")\n'
 
@@ -41,7 +41,8 @@ def program(placement, form, hint, cname):
     quoted = form in ('str', 'str-in-pep563', 'later-str')
     ann = repr(H) if quoted else H
     later = form.startswith('later')
-    cls = f'class {cname}(Generic[T_]):\n    def __hash__(self): return 1\n'
+    # (a plain class deriving directly from object unless the hint subscripts it)
+    cls = f'class {cname}{"(Generic[T_])" if "@[" in hint else ""}:\n    def __hash__(self): return 1\n'
     sig = f'(x: {ann}) -> {ann}'
     if placement == 'module':
         body = f'@beartype\ndef f{sig}:\n    return x\n'
@@ -94,6 +95,12 @@ def program(placement, form, hint, cname):
         p1 = fut + PRE + f'def {fname}():\n' + ind(inner)
         # the factory is invoked twice: two distinct local classes, two wrappers
         return p1, None, f'[{fname}(), {fname}()]'
+    if placement == 'closure-foreign-decorator':
+        # the closure is decorated by a helper living in ANOTHER module that has the same unqualified name as the factory
+        # (and locals named like the program's class)
+        inner = (('' if later else cls) + f'def f{sig}:\n    return x\nf = c07helper.make(f)\n' + (cls if later else '') + f'return {cname}, f\n')
+        p1 = fut + PRE + 'import c07helper\ndef make():\n' + ind(inner)
+        return p1, None, '[make(), make()]'
     if placement == 'closure-calls-inside':
         # the closure is called from inside its factory: before the local class exists (later forms) and after
         early = f"EARLY.append(early_outcome(f, {EARLY.get(hint, '1')!r}))\n" if later else ''
@@ -114,7 +121,11 @@ def verdicts(N, f):
         inst = N()
     except Exception:
         inst = None
-    env = {'N': N, 'inst': inst}
+    try:
+        subinst = type('Sub' + N.__name__, (N,), {})()        # instance of a direct subclass (MRO [Sub, N, object])
+    except Exception:
+        subinst = None
+    env = {'N': N, 'inst': inst, 'subinst': subinst}
     for o in OBJS:
         x = eval(o, env)
         try:
@@ -190,12 +201,23 @@ def run_program(placement, form, hint, cname, unresolved_call=False):
     return obs, early, p1 + (p2 or '')
 
 
-PLACEMENTS = ['module', 'method', 'class-decorated', 'nested-method', 'closure', 'closure-overlap', 'closure-calls-inside', 'closure-in-method', 'self-class',
+PLACEMENTS = ['module', 'method', 'class-decorated', 'nested-method', 'closure', 'closure-overlap', 'closure-calls-inside', 'closure-in-method', 'closure-foreign-decorator', 'self-class',
               'nested-class-local', 'class-local', 'nested-class-alias']
 FORMS = ['evaluated', 'str', 'pep563', 'str-in-pep563', 'later-str', 'later-pep563']
 
 
+HELPER_SRC = '''from beartype import beartype
+def make(func):
+    K = bytes
+    Node = bytes
+    return beartype(func)
+'''
+
+
 def run(ctx):
+    helper = types.ModuleType('c07helper')
+    exec(compile(HELPER_SRC, '<c07helper>', 'exec', dont_inherit=True), helper.__dict__)
+    sys.modules['c07helper'] = helper
     from .. import drive
     drive.install_draw()
     drive.DRAW[0] = 0          # one fixed draw: the forms must agree draw for draw (sampling itself is C02)
@@ -252,8 +274,8 @@ def run(ctx):
         rule=(f'E1: {len(hints)} hint texts x {len(PLACEMENTS)} placements (module function, method, class-decorated incl. nested class, method of a nested '
               'class, closure, closure in a function whose name contains the class name, closure in a method, class naming itself, class defined in the '
               'body of the (nested) decorated class with the enclosing scope binding the same name differently, alias bound in a nested class body) x 6 forms '
-              '(evaluated, string literal, PEP 563, string inside PEP 563, class defined later as string / PEP 563) x 2 class names x histories '
-              '(later forms also with a call made before the class exists; closure factories invoked twice) x 17 objects; every program is a real '
+              '(evaluated, string literal, PEP 563, string inside PEP 563, class defined later as string / PEP 563) x 2 class names x histories (closure also decorated through a same-named helper of another module) '
+              '(later forms also with a call made before the class exists; closure factories invoked twice) x 19 objects (incl. an instance of a direct subclass); every program is a real '
               'module executed from source.  states = programs; evaluations = decorated calls.'),
     )
     if 'viol' not in outcomes or 'ok' not in outcomes:
